@@ -14,6 +14,7 @@ import (
 	"github.com/zitadel/logging"
 
 	"verif/harness/internal/attrquery"
+	"verif/harness/internal/c04"
 	"verif/harness/internal/c07"
 	"verif/harness/internal/c09"
 	"verif/harness/internal/c10"
@@ -49,6 +50,8 @@ func main() {
 	stdlog.SetOutput(io.Discard)
 	var err error
 	switch prop {
+	case "C04":
+		err = c04.Run(*out, *tier, *seed)
 	case "C07":
 		err = c07.Run(*out, *tier, *seed)
 	case "C09":
